@@ -24,6 +24,7 @@ RULE = ('bounded: every contract of C06 evaluated natively on each labelled mole
 EXCUSED = ('sssr-independent', 'sssr-minimal', 'sssr-size-multiset', 'sssr-sizes-numbering')
 BASIS_THEOREMS = ('atom-in_ring-oracle', 'bond-in_ring-oracle')
 MAX_REPORT = 25      # new violations listed per contract
+ITEM_BUDGET_S = 240  # watchdog per work item (a normal item takes < 2 s)
 
 # the 18-atom witness found by the seeded assemblies on the unchanged tree (seed independent, run every time): cyclopentane fused on
 # an 8-ring, a 4-ring spiro/fused at atom 9 and a 3-atom bridge; contains the theta core 3/5/5, so it is inside gap A
@@ -299,8 +300,11 @@ def _work_smiles(item):
             # not a C06 verdict; the input is skipped and counted, bounded() crashes (exit 3) if too many are lost
             return 0, [], [], [], {'skipped:' + name: f'{type(e).__name__}: {e}'}
     else:
-        m = _cycle_sdf()[text]
         name = f'cycle.sdf#{text}'
+        try:
+            m = _cycle_sdf()[text]
+        except Exception as e:      # reader failure (C11), not a C06 verdict
+            return 0, [], [], [], {'skipped:' + name: f'{type(e).__name__}: {e}'}
     r = D.rnd(f'b06:{name}')
     g0, gall, orders = O.graphs(m)
     exp = O.mcb_sizes(g0)
@@ -359,8 +363,26 @@ def _cycle_sdf():
     return _SDF
 
 
+class _Watchdog(BaseException):
+    """not an Exception: must pass through every `except Exception` between the library call and _work"""
+
+
 def _work(item):
-    return _work_smiles(item[1:]) if item[0] == 'mol' else _work_graph(item[1:])
+    """one work item under a wall-clock watchdog.  A library call that does not return is NOT mapped to a violation: the item is
+    reported as timed out; bounded() then exits 3 unless genuine violations were found elsewhere"""
+    import signal
+
+    def on_alarm(sig, frame):
+        raise _Watchdog()
+    old = signal.signal(signal.SIGALRM, on_alarm)
+    signal.alarm(ITEM_BUDGET_S)
+    try:
+        return _work_smiles(item[1:]) if item[0] == 'mol' else _work_graph(item[1:])
+    except _Watchdog:
+        return 0, [], [], [], {'timeout:' + str(item[1])[:160] + ' ' + str(item[2])[:80]: ITEM_BUDGET_S}
+    finally:
+        signal.alarm(0)
+        signal.signal(signal.SIGALRM, old)
 
 
 # ---------------------------------------------------------------------------------------------------------------------------------
@@ -424,17 +446,23 @@ def bounded(run):
         add_graph('random', f'mac{i}[' + ' '.join(ops) + ']', g, 1, aromatic=False, trials=3)
     run.bound(f'seeded: {n_asm} fused/spiro/bridged/linked assemblies of 3-8 membered rings (8-30 atoms, 15 % with a second component), '
               f'plain + 1 coordinate variant, {ntr} labellings; {n_mac} macrocycles (12-40) bare / fused / spiro / bridged / two components, 3 labellings')
+    cages = G.named_cages()
+    for name, g in cages:
+        add_graph('named', name, g, 1, aromatic=False, trials=ntr if thorough or g.number_of_nodes() <= 12 else 2)
+    run.bound(f'named: {len(cages)} classic condensed systems and cages (ladders, grids, hexagonal lattices, prisms, Moebius ladders, '
+              'cubane, dodecahedrane, Petersen, Heawood ...; most are inside gap A, where count / simple cycles / marks stay enforced)')
     n_cor = 1000 if thorough else 100
     for s in D.corpus_sample(n_cor, 'b06:corpus'):
         items.append(('mol', 'smiles', s, 3))
         dom.append('corpus')
     files = 0
-    try:
-        mols = _cycle_sdf()
-    except Exception as e:      # unreadable test set: stated, not a violation of C06
-        mols = []
+    try:        # records are counted here, parsed in the workers only (reading runs the ring code under test)
+        with open(env.repo_path('test/cycle.sdf'), encoding='utf8') as f:
+            nrec = sum(1 for line in f if line.startswith('$$$$'))
+    except OSError as e:      # unreadable test set: stated, not a violation of C06
+        nrec = 0
         run.notes['cycle.sdf'] = f'not readable: {type(e).__name__}: {e}'
-    for i, m in enumerate(mols):
+    for i in range(nrec):
         items.append(('mol', 'sdf', i, 3))
         dom.append('cycle.sdf')
         files += 1
@@ -463,9 +491,9 @@ def bounded(run):
     order = sorted(range(len(items)), key=lambda i: -(len(items[i][3] or ()) if items[i][0] == 'graph' else 30))
     res = pmap(_work, [items[i] for i in order], chunksize=4)
     stats = {d: {'molecules': 0, 'graph_variants_inside_gap': Counter(), 'excused_contract_failures': Counter(), 'graph_variants_with_excused_failures': 0}
-             for d in ('exhaustive', 'random', 'corpus', 'cycle.sdf', 'fixed')}
+             for d in ('exhaustive', 'random', 'named', 'corpus', 'cycle.sdf', 'fixed')}
     examples = []
-    skipped = []
+    skipped, timeouts = [], []
     shown, reported, suppressed = Counter(), Counter(), Counter()
     for i, (n, keys, samples, viols, gp) in zip(order, res):
         it, d = items[i], dom[i]
@@ -489,6 +517,8 @@ def bounded(run):
         for k, v in gp.items():
             if k.startswith('skipped:'):
                 skipped.append((k[8:], v))
+            elif k.startswith('timeout:'):
+                timeouts.append(k[8:])
             elif k.startswith('hit-graphs:'):
                 hit.add(k[11:].split(' ')[0])
                 if len(examples) < 12 or d == 'fixed':
@@ -501,11 +531,16 @@ def bounded(run):
     if suppressed:
         run.notes['violations_not_listed'] = {'why': f'more than {MAX_REPORT} new violations of the same contract', 'per_contract': dict(suppressed)}
         print(f'C06 bounded: further violations not listed (same contracts): {dict(suppressed)}', flush=True)
+    if timeouts:
+        run.notes['timeouts'] = {'budget_s': ITEM_BUDGET_S, 'items': timeouts[:10], 'count': len(timeouts)}
+        print(f'C06 bounded: {len(timeouts)} work items did not return within {ITEM_BUDGET_S}s, e.g. {timeouts[0]}', flush=True)
+        if not run.violations:
+            raise RuntimeError(f'{len(timeouts)} work items timed out (never mapped to a violation), e.g. {timeouts[0]}')
     if skipped:
         run.notes['skipped_corpus_inputs'] = {'count': len(skipped), 'examples': skipped[:5],
                                               'why': 'the library raised while parsing / normalising the SMILES (outside C06)'}
-        if len(skipped) > n_cor // 10 and not run.violations:
-            raise RuntimeError(f'{len(skipped)} of {n_cor} corpus molecules could not be built, e.g. {skipped[0]}')
+        if len(skipped) > (n_cor + files) // 10 and not run.violations:
+            raise RuntimeError(f'{len(skipped)} of {n_cor + files} corpus / file molecules could not be built, e.g. {skipped[0]}')
     total_hits = sum(s['graph_variants_with_excused_failures'] for s in stats.values())
     fx = stats['fixed']
     run.notes['gap_hits'] = {
